@@ -269,7 +269,12 @@ func c02Opts() *MatOpts {
 		{
 			pre = append(pre,
 				M{"uuid": actionUUID(f, n, 7), "type": "open_ticket", "body": "help @input.text", "result_name": "ticket"},
-				M{"uuid": actionUUID(f, n, 6), "type": "call_webhook", "method": "GET", "url": "http://example.com/hook", "result_name": "hook"})
+				M{"uuid": actionUUID(f, n, 6), "type": "call_webhook", "method": "GET", "url": "http://example.com/hook", "result_name": "hook"},
+				// every part of the contact is written to at every node: the session's contact started as a clone of the
+				// trigger's, and anything the two still share shows as a trigger contact that differs live vs restored
+				M{"uuid": actionUUID(f, n, 5), "type": "set_contact_field", "field": M{"key": "f1", "name": "F1"}, "value": fmt.Sprintf("v_%d_%d_@node.visit_count", f, n)},
+				M{"uuid": actionUUID(f, n, 4), "type": "add_contact_urn", "scheme": "tel", "path": fmt.Sprintf("+1206555%d%d00", f, n)},
+				M{"uuid": actionUUID(f, n, 3), "type": "add_contact_groups", "groups": []M{{"uuid": "b7cf0d83-f1c9-411c-96fd-c511a4cfa86d", "name": "S1"}}})
 		}
 		node["actions"] = append(pre, acts...)
 	}}
@@ -283,6 +288,8 @@ func behaviourScript(b *Behaviour, src string) (*script, error) {
 	var a M
 	json.Unmarshal(data, &a)
 	a["topics"] = []M{{"uuid": "472a7a73-96cb-4736-b567-056d987cc5b4", "name": "General"}}
+	a["fields"] = []M{{"uuid": "f1b5aea6-6586-41c7-9020-1a6326cc6565", "key": "f1", "name": "F1", "type": "text"}, {"uuid": "f1b5aea6-6586-41c7-9020-1a6326cc6566", "key": "f2", "name": "F2", "type": "text"}}
+	a["groups"] = []M{{"uuid": "b7cf0d83-f1c9-411c-96fd-c511a4cfa86d", "name": "S1"}, {"uuid": "1e1ce1e1-9288-4504-869e-022d1003c72a", "name": "S2"}}
 	adata := mustJSON(a)
 	load := func() (flows.SessionAssets, error) {
 		sa, err := loadAssets(adata)
@@ -304,7 +311,15 @@ func behaviourScript(b *Behaviour, src string) (*script, error) {
 	for i, c := range b.Hist {
 		switch c.Op {
 		case "start":
-			sc.trigger = matTrigger(b, c.Choice, "")
+			// a trigger contact that has been seen before and has something in every collection
+			var tm M
+			json.Unmarshal(matTrigger(b, c.Choice, ""), &tm)
+			if cm, ok := tm["contact"].(map[string]any); ok {
+				cm["last_seen_on"] = "2018-07-01T10:00:00Z"
+				cm["fields"] = M{"f2": M{"text": "kept"}}
+				cm["groups"] = []M{{"uuid": "1e1ce1e1-9288-4504-869e-022d1003c72a", "name": "S2"}}
+			}
+			sc.trigger = mustJSON(tm)
 		case "restart":
 			pending = true
 		case "resume":
